@@ -199,7 +199,8 @@ def standin(tier, seed):
         def _any(self):
             ran.append(self.request.method)
             self.write("ran")
-        get = post = put = delete = patch = head = options = _any
+        SUPPORTED_METHODS = W.RequestHandler.SUPPORTED_METHODS + ("PURGE", "PROPFIND")       # an application's own methods are "non-GET/HEAD/OPTIONS" too
+        get = post = put = delete = patch = head = options = purge = propfind = _any
 
     def mk_app(res):
         return W.Application([(r"/", H)], xsrf_cookies=True)
@@ -225,7 +226,7 @@ def standin(tier, seed):
         out += [("other-secret-v1", tok_v1(S2), False), ("other-secret-v2", tok_v2(S2, b"\x09\x08\x07\x06"), False), ("empty", "", False), ("garbage", "2|zz|yy|1", False),
                 ("short-mask", "2|aabb||123", False), ("empty-secret", "2|00000000||123", False), ("huge", "9" * 5000 + "|x", False), ("pipe", "|", False), ("v3", "3|abc", False)]
         return out
-    for (cname, (cookie, secret)), method in itertools.product(COOKIES.items(), ["POST", "PUT", "DELETE", "GET", "HEAD", "OPTIONS"]):
+    for (cname, (cookie, secret)), method in itertools.product(COOKIES.items(), ["POST", "PUT", "DELETE", "PATCH", "PURGE", "PROPFIND", "GET", "HEAD", "OPTIONS"]):
         toks = tokens_for(secret)
         if method in ("GET", "HEAD", "OPTIONS") or tier == "quick":
             toks = toks[:4] + toks[-9:] if method == "POST" else toks[:2] + toks[-3:]
@@ -244,7 +245,7 @@ def standin(tier, seed):
                     lines.append("Content-Type: application/x-www-form-urlencoded")
                 else:
                     lines.append("%s: %s" % (where, tok))
-            if method in ("POST", "PUT", "PATCH") or body:
+            if method in ("POST", "PUT", "PATCH", "PURGE", "PROPFIND") or body:
                 lines.append("Content-Length: %d" % len(body))
             raw = ("\r\n".join(lines) + "\r\n\r\n").encode("latin1") + body
             del ran[:]
@@ -310,7 +311,7 @@ def standin(tier, seed):
                     fail("the token the application issued (%r) was refused with its cookie %r: %r" % (tok, cookie, bytes(res2.sent[:40])), version=ver)
     samples.append({"cookie": "v1-hex", "token": "v2 with 32 random masks", "expect": "handler runs for POST; 403 for any other secret"})
     return {"evaluations": evals, "distinct_nontrivial": len(nontriv), "failures": failures[:3], "samples": samples,
-            "rule": "real Application(xsrf_cookies=True) behind the real server on the scripted transport: %d cookie forms x 6 methods x tokens (none, the cookie's secret as v1 and as v2 under %d "
+            "rule": "real Application(xsrf_cookies=True) behind the real server on the scripted transport: %d cookie forms x 9 methods (incl. two the application added to SUPPORTED_METHODS) x tokens (none, the cookie's secret as v1 and as v2 under %d "
                     "masks, another secret, empty, malformed, short mask, empty secret, 5000-digit version) x {form field, X-Xsrftoken, X-Csrftoken}: the handler runs iff the method is safe or "
                     "the token decodes to the cookie's non-empty secret, every refusal is 403 (400 for an undecodable field), never 5xx; tokens issued by xsrf_token (both cookie versions) are "
                     "accepted with the cookie the application set" % (len(COOKIES), len(masks)),
